@@ -134,6 +134,9 @@ def check(F, R, Gm):
     special += [("(-2)(-3)", M(NG(N(2)), NG(N(3)))), ("(-x)(-y)", M(NG(L("x")), NG(L("y")))), ("(-a)(-b)(-c)", M(M(NG(L("a")), NG(L("b"))), NG(L("c")))), ("2(-x)", M(N(2), NG(L("x")))), ("(-x)y", M(NG(L("x")), L("y"))),
                 ("12 / (-2)(-3)", ("bin", "Div", N(12), M(NG(N(2)), NG(N(3))))), ("10 - (-2)(-3)", ("bin", "Sub", N(10), M(NG(N(2)), NG(N(3))))), ("(-x)(-y)(-2)(-3)", M(M(M(NG(L("x")), NG(L("y"))), NG(N(2))), NG(N(3)))),
                 ("(-x)(-3)", M(NG(L("x")), NG(N(3)))), ("-(-x)(-y)", NG(M(NG(L("x")), NG(L("y"))))), ("(-(x + 1))(-(y - 2))", M(NG(("bin", "Add", L("x"), N(1))), NG(("bin", "Sub", L("y"), N(2)))))]
+    # names that merely start with a keyword or a literal word are names
+    special += [("truex + 1", ("bin", "Add", L("truex"), N(1))), ("falsey * 2", ("bin", "Mul", L("falsey"), N(2))), ("notx + andy", ("bin", "Add", L("notx"), L("andy"))), ("2 * orz - xory", ("bin", "Sub", ("bin", "Mul", N(2), L("orz")), L("xory"))),
+                ("iffy and impliesz", ("bin", "And", L("iffy"), L("impliesz"))), ("minx + maxy", ("bin", "Add", L("minx"), L("maxy"))), ("inx - asy", ("bin", "Sub", L("inx"), L("asy"))), ("True1 + FALSE2", ("bin", "Add", L("True1"), L("FALSE2")))]
     for text, want in special:
         ast = RT.parse_text("min %s\ns.t.\nx >= 0" % text)
         n += 1
